@@ -91,7 +91,8 @@ class SeriesMode:
             self.s2 = [SReal(x) for x in self.b]
         else:
             self.a = [[z3.Real('%s%d_%d' % (pa, i, k)) for k in range(ndim)] for i in range(r)]
-            self.b = [[z3.Real('%s%d_%d' % (pb, j, k)) for k in range(ndim)] for j in range(c)]
+            self.b = [list(row) for row in self.a[:c]] if shared else \
+                [[z3.Real('%s%d_%d' % (pb, j, k)) for k in range(ndim)] for j in range(c)]
             self.s1 = pysym.objarray([[SReal(x) for x in row] for row in self.a])
             self.s2 = pysym.objarray([[SReal(x) for x in row] for row in self.b])
         self.assume = []
@@ -246,6 +247,10 @@ def conc_result(kind, inner, v):
 
 
 # --------------------------------------------------------------------------------------------------
+_CEX_COUNT = {}
+CEX_CAP = 3
+
+
 def claim(stats, facts, neg, mode, syms, meta, lemmas='unary', refine=True, timeout_ms=None):
     """discharge one assertion.  returns None (holds), 'unknown', or a counterexample dict"""
     res, m = smt.decide(stats, facts, neg, lemmas=lemmas, timeout_ms=timeout_ms)
@@ -253,6 +258,10 @@ def claim(stats, facts, neg, mode, syms, meta, lemmas='unary', refine=True, time
         return None
     if res == 'unknown':
         return 'unknown'
+    key = (meta.get('harness'), meta.get('claim'))
+    _CEX_COUNT[key] = _CEX_COUNT.get(key, 0) + 1
+    if _CEX_COUNT[key] > CEX_CAP:
+        return None       # already enough counterexamples of this kind from this task (counted in stats.sat)
     soft = False
     if refine and mode is not None and getattr(mode, 'kind', '') == 'series' and pysym.Mode.square == 'abstract':
         r2, m2 = smt.refine_exact(list(facts), neg, timeout_ms=30000)
@@ -268,3 +277,116 @@ def claim(stats, facts, neg, mode, syms, meta, lemmas='unary', refine=True, time
     cex['inputs'] = model_inputs(m, mode, syms) if mode is not None else {k: smt.model_val(m, v) for k, v in syms.items()}
     cex['soft'] = soft
     return cex
+
+
+# --------------------------------------------------------------------------------------------------
+# C side: transcription of dtw_cc.pyx DTWSettings.__init__ (trusted; cross-checked concretely, DESIGN 2.8)
+# --------------------------------------------------------------------------------------------------
+def _cval(v):
+    return v.t if isinstance(v, SReal) else v
+
+
+def pyx_settings(kwargs):
+    """kwargs as produced by dtw.DTWSettings.c_kwargs() (+ only_ub) -> C DTWSettings field values"""
+    cs = {}
+    for k in ('window', 'max_length_diff'):
+        if k in kwargs:
+            cs[k] = 0 if kwargs[k] is None else int(kwargs[k])
+    for k in ('max_dist', 'max_step', 'penalty'):
+        if k in kwargs:
+            v = kwargs[k]
+            v = 0.0 if v is None else _cval(v)
+            cs[k] = float(v) if isinstance(v, (int, float)) else v
+    if 'psi' in kwargs:
+        psi = kwargs['psi']
+        if psi is None:
+            p = (0, 0, 0, 0)
+        elif type(psi) is int:
+            p = (psi,) * 4
+        elif type(psi) in (tuple, list):
+            p = tuple(psi) if len(psi) == 4 else (0, 0, 0, 0)
+        else:
+            p = (0, 0, 0, 0)
+        cs['psi_1b'], cs['psi_1e'], cs['psi_2b'], cs['psi_2e'] = p
+    for k in ('use_pruning', 'only_ub'):
+        if k in kwargs:
+            cs[k] = bool(kwargs[k]) if kwargs[k] is not None else False
+    if 'inner_dist' in kwargs:
+        v = kwargs['inner_dist']
+        if v == 'squared euclidean' or v == 0:
+            cs['inner_dist'] = 0
+        elif v == 'euclidean' or v == 1:
+            cs['inner_dist'] = 1
+        else:
+            raise AttributeError('Unknown inner_dist')
+    return cs
+
+
+def c_settings(dtw, **pykw):
+    """Python-level keyword arguments -> C settings, through the real DTWSettings.c_kwargs()"""
+    only_ub = pykw.pop('only_ub', None)
+    s = dtw.DTWSettings(**pykw)
+    ck = s.c_kwargs()
+    if only_ub is not None:
+        ck['only_ub'] = only_ub
+    return pyx_settings(ck)
+
+
+def flat_terms(series):
+    out = []
+    for v in series:
+        if isinstance(v, (list, tuple)):
+            out.extend(v)
+        else:
+            out.append(v)
+    return out
+
+
+def c_distance(irmod, mode, cs, machine_hook=None):
+    """run the exported distance kernel of the C engine on the symbolic series of `mode` (inside Explorer.explore)"""
+    from . import irsym
+    M = irsym.Machine(irmod)
+    if machine_hook:
+        machine_hook(M)
+    s1 = M.new_doubles('s1', flat_terms(mode.a))
+    s2 = M.new_doubles('s2', flat_terms(mode.b))
+    st = irsym.mk_settings(M, **cs)
+    if mode.ndim == 1:
+        return M.run('dtw_distance', [s1, mode.r, s2, mode.c, st]), M
+    return M.run('dtw_distance_ndim', [s1, mode.r, s2, mode.c, mode.ndim, st]), M
+
+
+# --------------------------------------------------------------------------------------------------
+# path enumerators returning results in the internal (untransformed) domain
+# --------------------------------------------------------------------------------------------------
+def internal_er(mode, res):
+    if pysym.is_inf(res):
+        return smt.ER.infinity()
+    if isinstance(res, z3.ExprRef):
+        res = SReal(res)
+    return smt.ER(mode.unresult(res))
+
+
+def py_paths(fn, mode, assume, stats, max_paths=4000):
+    """explore fn() (a call into the real Python code); yields (facts, internal ER | None, path)"""
+    ex = pysym.Explorer(assume, max_paths=max_paths, stats=stats)
+    for p in ex.explore(fn):
+        facts = list(assume) + p.facts()
+        yield facts, (None if p.exc is not None else internal_er(mode, p.result)), p
+    py_paths.truncated = ex.truncated
+    py_paths.inconclusive = ex.inconclusive_paths
+
+
+def c_paths(irmod, dtw, mode, pykw, assume, stats, only_ub=False, max_paths=2000):
+    """explore the C distance kernel for Python-level options pykw; yields (facts, internal ER | None, path)"""
+    def crun():
+        ckw = dict(pykw)
+        ckw.pop('use_ndim', None)
+        cs = c_settings(dtw, only_ub=only_ub, **ckw)
+        return c_distance(irmod, mode, cs)[0]
+    ex = pysym.Explorer(assume, max_paths=max_paths, stats=stats)
+    for p in ex.explore(crun):
+        facts = list(assume) + p.facts()
+        yield facts, (None if p.exc is not None else internal_er(mode, p.result)), p
+    c_paths.truncated = ex.truncated
+    c_paths.inconclusive = ex.inconclusive_paths
